@@ -19,7 +19,7 @@ RULE = ("worlds with three-phase mixed-sign constraint matrices (1-6 constraints
         "direction matrices (1-4 periods) scaled so that the most binding constraint sits at limit + k*tol, k in "
         "{-10,-2,-0.5,0.5,2,10}; non-trivial = probe within +-2 tolerances of a limit on a mixed-sign constraint with >=2 "
         "distinct phase angles; distinct = history signature + probe pattern")
-PROBES = ["probe", "creeping_schedule_probe", "non_finite_entry_probe", "probe_within_2tol_mixed_sign", "explicit_tolerances", "rel_tol_dominates", "linear_probe", "multi_period",
+PROBES = ["probe", "algorithm_side_default_tolerances", "creeping_schedule_probe", "non_finite_entry_probe", "probe_within_2tol_mixed_sign", "explicit_tolerances", "rel_tol_dominates", "linear_probe", "multi_period",
           "negative_entries", "one_dim_vector", "constraint_free_world", "constraint_free_sorted_completed", "dict_omitted_rows",
           "executed_columns_checked", "invalid_schedule_warning_seen", "probe_after_reconfig", "exact_boundary_probe",
           "exactly_at_limit_plus_tol", "exact_linear_probe"]
@@ -27,7 +27,7 @@ FAULT_DIMENSION = ("environment fault only: the operator changes a constraint li
                    "follow); otherwise state/message distribution (pure function); probes are messages the party sends during a run")
 ASSUMPTIONS = ["guard band: verdicts are compared only when the reference margin is outside 1e-9*max(1,limit)",
                "linear mode: only agreement of the three checkers and conservativeness for non-negative schedules are required"]
-KS = [-10, -2, -0.5, 0.5, 2, 10]
+KS = [-10, -2, -0.5, -0.25, 0.25, 0.5, 0.75, 2, 10]
 PROFILE = world.profile(reconfig=0.25, constraints={"none": 1, "three": 5}, binding=(0.2, 1.2),
                         party={"scripted": 3, "uncontrolled": 1, "greedy": 3, "rr": 1}, stations=(1, 7))
 
@@ -176,6 +176,10 @@ def probe_once(out, sc, nw, iface, r, tag, cons):
         "interface": bool(iface.is_feasible(d, False, kw.get("violation_tolerance"), kw.get("relative_tolerance"))),
         "algorithm": bool(sut.algo_utils.infrastructure_constraints_feasible(A, infra, False, vt, rt)),
     }
+    if not explicit and vt == 1e-5 and rt == 1e-7:
+        # a caller that relies on the algorithm-side checker's documented default tolerances (as the sorted algorithms do)
+        out.probe("algorithm_side_default_tolerances")
+        res["algorithm_defaults"] = bool(sut.algo_utils.infrastructure_constraints_feasible(A, infra))
     if T == 1:
         out.probe("one_dim_vector")
         res["algorithm_1d"] = bool(sut.algo_utils.infrastructure_constraints_feasible(A[:, 0], infra, False, vt, rt))
